@@ -465,6 +465,9 @@ func registerCancel() {
 
 	// sweep: generated looping / blocking programs and templates, cancelled at random delays
 	Register("C11-sweep", func(c *Ctx) {
+		// Stop and Fatal win over the cancellation: the action trees of C12 with a
+		// context that is cancelled or expired, or that the native function cancels itself
+		ctxStopScenarios(c, "")
 		var cases []cancelCase
 		if in := c.ReplayInput(); in != nil {
 			if m, ok := in["case"].(map[string]any); ok {
